@@ -43,6 +43,9 @@ def cases(tier, seed):
     # b larger than an axis would give an empty image: outside the statement (there is no block to sum)
     out = [{"family": "operator", "b": b, "shape": [4, 5, 6], "array": k} for b in range(1, 5) for k in KINDS]
     out += [{"family": "operator", "b": b, "shape": [6, 7, 6], "array": k} for b in (5, 6) for k in KINDS]
+    # integer tomograms with realistic grey levels: block sums leave the range of the input dtype
+    out += [{"family": "dtype", "b": b, "dtype": dt, "array": k, "loader": lk} for b in (2, 3, 4) for dt in ("int16", "uint16", "uint8", "int8", "float64")
+            for k in ("numpy", "dask:4,5,3") for lk in ("single", "batch2")]
     combos = [(a, c) for a in KINDS for c in (True, False)]
     lks = ("single", "batch2", "batch3")
     rr = 0
@@ -133,6 +136,39 @@ def run_case(case):
     dask.config.set(scheduler="synchronous")
     b = case["b"]
     viol = []
+    if case["family"] == "dtype":
+        dt = case["dtype"]
+        rng = np.random.default_rng(5)
+        lo, hi = {"int16": (500, 3000), "uint16": (20000, 60000), "uint8": (60, 250), "int8": (30, 120), "float16": (500.0, 3000.0), "float64": (0.0, 1.0)}[dt]
+        ishape = (12, 13, 14)
+        imgs = [(rng.random(ishape) * (hi - lo) + lo).astype(dt) for _ in range(2 if case["loader"] == "batch2" else 1)]
+        sig = lambda what: f"{ID}|dtype|{what}|{'integer' if 'int' in dt else dt}-image|{case['array'].split(':')[0]}"  # noqa
+        scale = 0.7
+        pos_px = np.array([[(j + 0.5) * b - 0.5 for j in (1, 1, 1)]])
+        if case["loader"] == "single":
+            ld = SubtomogramLoader(_as_array(imgs[0], case["array"]), Molecules(pos_px * scale), order=0, scale=scale, output_shape=(1, 1, 1))
+        else:
+            ld = BatchLoader(order=0, scale=scale, output_shape=(1, 1, 1))
+            for i, im in enumerate(imgs):
+                ld.add_tomogram(_as_array(im, case["array"]), Molecules(pos_px * scale), image_id=i)
+        for compute in (True, False):
+            lb = ld.binning(b, compute=compute)
+            images = [lb.image] if case["loader"] == "single" else [lb.images[i] for i in range(len(imgs))]
+            for i, im in enumerate(images):
+                ref = blocksum(imgs[i].astype(np.float64), b)
+                got = np.asarray(im, dtype=np.float64)
+                tol = 1e-3 * ref.max() if dt == "float16" else 1e-6 * max(1.0, ref.max())
+                if got.shape != ref.shape or np.abs(got - ref).max() > tol:
+                    viol.append((sig("image-values"), f"{dt} image with values {lo}..{hi}, b={b}, compute={compute}: binned image differs from the block sums by {np.abs(got - ref).max():.5g} (sums up to {ref.max():.5g})"))
+                    break
+            sub = np.asarray(lb.asnumpy(), dtype=np.float64).reshape(-1)
+            want = [blocksum(im_.astype(np.float64), b)[1, 1, 1] for im_ in imgs]
+            if len(sub) != len(want) or np.abs(sub - np.array(want)).max() > (1e-3 if dt == "float16" else 1e-6) * max(want):
+                viol.append((sig("subtomogram"), f"{dt} image, b={b}, compute={compute}: binned sub-volume {sub.tolist()} != block sums {want}"))
+        by = {}
+        for s_, m_ in viol:
+            by.setdefault(s_, m_)
+        return {"nontrivial": True, "outcome": f"dtype|{dt}|{'viol' if viol else 'ok'}", "viol": list(by.items())}
     if case["family"] == "operator":
         shape = tuple(case["shape"])
         n = int(np.prod(shape))
